@@ -55,8 +55,11 @@ func genSyncEvent(t *rapid.T, adversarial bool) SyncEvent {
 		return SyncEvent{Ev: "head"}
 	case 8:
 		if adversarial && rapid.Bool().Draw(t, "headrace") {
-			if rapid.Bool().Draw(t, "twin") {
+			switch rapid.IntRange(0, 2).Draw(t, "twin") {
+			case 0:
 				return SyncEvent{Ev: "twin_race"}
+			case 1:
+				return SyncEvent{Ev: "handoff_race", K: rapid.IntRange(1, 6).Draw(t, "hok"), RangeDelay: rapid.SampledFrom([]int{100, 500}).Draw(t, "hodelay")}
 			}
 			return SyncEvent{Ev: "head_race", K: rapid.IntRange(0, 5).Draw(t, "hk"), RangeDelay: rapid.SampledFrom([]int{100, 500, 1500}).Draw(t, "hdelay")}
 		}
@@ -330,6 +333,55 @@ func runSync(t *testing.T, s SyncScenario, c03 bool) (res Result) {
 				if !checkSafety(tag) {
 					return
 				}
+			case "handoff_race":
+				// A sync of k headers is in flight (slow range answer). Right before it completes, a gossip
+				// handler starts verifying an equivocating twin of the first header being synced, and its read
+				// of the store head takes a moment: the synced headers move from "pending" to "stored" under it.
+				// Whatever the handler reads when, the twin's height is taken (pending before, stored after),
+				// so the twin must be refused and must never reach the store.
+				if !e.quiesce(600) {
+					res.failf("HARNESS: no quiescence before %s", tag)
+					return
+				}
+				sh, err := e.st.Head(ctx)
+				if err != nil || sh.H+10 >= syncChainLen || sh.H < e.getter.Tip() {
+					continue
+				}
+				k := uint64(ev.K) + 1
+				rd := time.Duration(ev.RangeDelay) * time.Millisecond
+				e.getter.set(func() { e.getter.RangeDelay = rd })
+				e.getter.SetTip(sh.H + k)
+				time.Sleep(time.Duration(k) * e.delta)
+				gctx, gcancel := context.WithTimeout(ctx, 30*time.Second)
+				if err := e.sub.deliver(gctx, chain.At(sh.H+k)); err == nil {
+					ack(sh.H + k)
+				}
+				gcancel()
+				synctest.Wait() // the sync loop now waits for the range answer
+				twin := chain.At(sh.H + 1).Clone()
+				twin.Salt = 4343
+				twin.Seal()
+				time.Sleep(rd - 10*time.Millisecond)
+				e.slow.setHeadDelay(30 * time.Millisecond)
+				gctx, gcancel = context.WithTimeout(ctx, 30*time.Second)
+				verr := e.sub.deliver(gctx, twin)
+				gcancel()
+				e.slow.setHeadDelay(0)
+				e.getter.set(func() { e.getter.RangeDelay = 0 })
+				advSeen["handoff_race"] = true
+				advWhileSyncing = true
+				advHashes = append(advHashes, fmtHash(twin.Hash()))
+				if verr == nil {
+					res.failf("%s: an equivocating twin of height %d was accepted while the header of that height was being handed from the sync target to the store", tag, twin.H)
+					return
+				}
+				if !e.quiesce(600) {
+					res.failf("HARNESS: no quiescence at %s", tag)
+					return
+				}
+				if !checkSafety(tag) {
+					return
+				}
 			case "head_race":
 				// The subjective head is stale; the (contract-abiding) getter answers the head request slowly
 				// and with an unverifiable header plus a soft VerifyError, as an Exchange relaying what untrusted
@@ -344,15 +396,20 @@ func runSync(t *testing.T, s SyncScenario, c03 bool) (res Result) {
 					e.getter.HeadMode, e.getter.ExpiredHdr = "expired", forged
 					e.getter.HeadDelay = time.Duration(ev.RangeDelay) * time.Millisecond
 				})
+				// one to three concurrent Head() callers: the first one performs the request, the others arrive
+				// while it is in flight and share its answer - header AND soft error
 				var hwg sync.WaitGroup
-				var rh *vh.Header
-				var rerr error
-				hwg.Add(1)
-				go func() {
-					defer hwg.Done()
-					rh, rerr = e.syncer.Head(ctx)
-				}()
-				synctest.Wait()
+				ncallers := 1 + ev.K%3
+				rhs := make([]*vh.Header, ncallers)
+				rerrs := make([]error, ncallers)
+				for c := 0; c < ncallers; c++ {
+					hwg.Add(1)
+					go func() {
+						defer hwg.Done()
+						rhs[c], rerrs[c] = e.syncer.Head(ctx)
+					}()
+					synctest.Wait()
+				}
 				// the network is already a few headers further (their stamps are within the clock drift allowance)
 				newTip := min(fh+uint64(ev.K), syncChainLen-5)
 				e.getter.SetTip(newTip)
@@ -367,12 +424,14 @@ func runSync(t *testing.T, s SyncScenario, c03 bool) (res Result) {
 				advHashes = append(advHashes, fmtHash(forged.Hash()))
 				advSeen["head_race"] = true
 				advWhileSyncing = true
-				if rerr == nil && rh != nil {
-					if !chain.IsCanonical(rh) {
-						res.failf("%s: Syncer.Head returned the unverifiable header %v", tag, rh)
-						return
+				for c, rh := range rhs {
+					if rerrs[c] == nil && rh != nil {
+						if !chain.IsCanonical(rh) {
+							res.failf("%s: Syncer.Head (caller %d of %d) returned the unverifiable header %v", tag, c, ncallers, rh)
+							return
+						}
+						ack(rh.H)
 					}
-					ack(rh.H)
 				}
 				// catch up with the clock
 				time.Sleep(chain.At(newTip).Time().Sub(time.Now()) + time.Millisecond)
